@@ -9,9 +9,9 @@ looked up by a sound membership test; the reasons scan must go through the value
 import os
 
 from ..engine import VERIF, load_json
-from ..facts import site
+from ..facts import site, unwrap
 from ..symx import closure_paths, cshow, paths_of, simp, tshow
-from ..terms import is_call, mentions, node_resolved, node_self_args, pat_variants, same, subterms
+from ..terms import is_call, mentions, node_resolved, node_self_args, opt_polarity, pat_variants, same, subterms
 
 FN = "ipp::util::is_printer_ready"
 STATE_C = "ipp::attribute::IppAttribute::PRINTER_STATE"
@@ -96,11 +96,12 @@ def check(run, views, tier):
             if ret[0] == "ctor" and ret[1].endswith("::Ok") and ret[2] and ret[2][0][0] not in ("lit",):
                 x, pol = truth(ret[2][0], True)
                 for v in (True, False):
-                    vpaths.append((p.conds + [("if", x, v)], ("ctor", ret[1], [("lit", v == pol)])))
+                    vpaths.append((p.conds + [("if", x, v)], ("ctor", ret[1], [("lit", v == pol)]), p.trace))
             else:
-                vpaths.append((p.conds, ret))
-        for conds_, ret in vpaths:
+                vpaths.append((p.conds, ret, p.trace))
+        for conds_, ret, trace_ in vpaths:
             p = type("VP", (), {"conds": conds_})()
+            loop_neg = loop_scan_completed(run, F, b, trace_, T, checked_any)
             status_pol = None
             status_term = None
             stopped_pos = stopped_neg = state_absent = any_pos = any_neg = reasons_absent = False
@@ -124,6 +125,12 @@ def check(run, views, tier):
                         state_absent = True
                     if REASONS_C in inner["defs"] and pol is True:
                         reasons_absent = True
+                    continue
+                if is_call(t, "<in-loop>") and t[2] and REASONS_C in mentions(t[2][0])["defs"]:
+                    # the scan written as a loop: `for v in reasons.value() { let Some(k) = v.as_keyword() else { continue }; if LIST.contains(k) { return Ok(false) } }`
+                    hit = [c2 for c2 in p.conds if c2[0] == "if" and c2[2] is True and is_call(c2[1], "core::slice::<impl [T]>::contains") and c2[1][2][0][0] == "def"]
+                    if hit and validate_loop_scan(run, F, b, t, hit[-1][1], T, checked_any):
+                        any_pos = True
                     continue
                 if is_call(t, "std::iter::Iterator::any"):
                     ok_any = validate_any(run, F, b, t, T, checked_any)
@@ -191,7 +198,7 @@ def check(run, views, tier):
                        key="R-READY|%s|unjustified-not-ready" % FN)
             else:
                 state_ok = stopped_neg or state_absent
-                reasons_ok = any_neg or reasons_absent
+                reasons_ok = any_neg or reasons_absent or loop_neg
                 run.ob("R-READY", short + " Ok(true) examined the state", state_ok,
                        "Ok(true) on a path that never tested printer-state against stopped [%s]" % pc[:400], st,
                        key="R-READY|%s|ready-without-state-test" % FN)
@@ -227,6 +234,60 @@ def validate_state(run, F, b, t, m):
             ok = True
     run.ob("R-READY", "state lookup: PrinterState::from_i32", ok, "state value is not decoded with PrinterState's FromPrimitive", st,
            key="R-READY|%s|state-decode" % FN)
+
+
+def _scan_const_ok(run, F, const, T, checked):
+    key = ("const", const)
+    if key not in checked:
+        checked.add(key)
+        val = F.const_value(const)
+        c = F.consts.get(const, {})
+        ok = isinstance(val, list) and set(val) == set(T["blocking"])
+        run.ob("R-READY", "blocking keyword constant == the 10-word list", ok,
+               "missing %s, extra %s" % (sorted(set(T["blocking"]) - set(val or [])), sorted(set(val or []) - set(T["blocking"]))),
+               "%s:%s (%s)" % (c.get("file"), c.get("line"), const), key="R-READY|%s|keyword-set" % const)
+    val = F.const_value(const)
+    return isinstance(val, list) and set(val) == set(T["blocking"])
+
+
+def validate_loop_scan(run, F, b, inloop, contains, T, checked):
+    """The loop form of the blocking-reason scan: iterates the reasons value of the printer group with the value iterator, reads each element
+    with as_keyword and tests membership in the reviewed keyword constant."""
+    itv = inloop[2][0]
+    node = inloop[3] if len(inloop) > 3 and isinstance(inloop[3], dict) else {}
+    sc = unwrap(node.get("scrut") or {})
+    resolved = ((sc.get("f") or {}).get("res") or {}).get("resolved") or ""
+    if not resolved and str(sc.get("ty") or "").startswith("ipp::value::IppValueIterator"):
+        resolved = "<&ipp::value::IppValue as std::iter::IntoIterator>::into_iter"       # (the loop's iterator type says which into_iter it is)
+    m = mentions(itv)
+    arg = contains[2][1]
+    ma = mentions(arg)
+    ok = REASONS_C in m["defs"] and PRINTER_GROUP in m["ctors"] and resolved.endswith("ipp::value::IppValue as std::iter::IntoIterator>::into_iter") and \
+        "ipp::value::IppValue::as_keyword" in ma["callees"] and any(isinstance(x, tuple) and x[0] == "elem" for x in subterms(arg))
+    key = ("loop", id(node))
+    if key not in checked:
+        checked.add(key)
+        run.ob("R-READY", "reasons scan (loop form): every element of printer-state-reasons, read with as_keyword, tested against the keyword list", ok,
+               "loop over %s via %s tests %s" % (tshow(itv)[:120], resolved[-60:], tshow(arg)[:120]), site(b, node), key="R-READY|%s|loop-scan" % FN)
+    return ok and _scan_const_ok(run, F, contains[2][0][1], T, checked)
+
+
+def loop_scan_completed(run, F, b, trace, T, checked):
+    """True when the path ran such a scanning loop to its end: every iteration that goes on either found no keyword or a keyword outside the list."""
+    for t in trace:
+        if is_call(t, "<for>") and t[2] and REASONS_C in mentions(t[2][0])["defs"] and isinstance(t[3], dict):
+            bodies = t[3].get("paths", [])
+            if not bodies:
+                return False
+            good = True
+            for bp in bodies:
+                neg_contains = [c for c in bp.conds if c[0] == "if" and c[2] is False and is_call(c[1], "core::slice::<impl [T]>::contains") and c[1][2][0][0] == "def" and
+                                _scan_const_ok(run, F, c[1][2][0][1], T, checked) and "ipp::value::IppValue::as_keyword" in mentions(c[1][2][1])["callees"]]
+                no_kw = [c for c in bp.conds if c[0] == "match" and is_call(c[1], "ipp::value::IppValue::as_keyword") and opt_polarity(c) is False]
+                if not (neg_contains or no_kw):
+                    good = False
+            return good
+    return False
 
 
 def validate_any(run, F, b, t, T, checked):
